@@ -30,6 +30,8 @@ func c02(c *Ctx) {
 	// "more than two thirds of that height's voting power": the threshold predicate and once-per-validator tallies
 	quorumRule(c, "R6")
 	tallyRule(c, "R7")
+	// the validator set recorded as LastValidators is the one that signed the block: next-set changes never alias it
+	uniformApplicationRule(c, "R8")
 }
 
 func c15R6rule(c *Ctx, id string) {
